@@ -45,7 +45,7 @@ for sid in seeds:
         if a.tests and not a.scratch:
             t = subprocess.run("cd /repo && /venv/bin/python -m pytest -q -p no:cacheprovider -x --timeout=300", shell=True, capture_output=True, text=True)
             res["tests"] = "pass" if t.returncode == 0 else "FAIL"
-        checks = [c for c in a.checks.split(",") if c] or (claimed if a.all else [meta["property"]])
+        checks = [c for c in a.checks.split(",") if c] or (claimed if a.all else [meta.get("primary_check", meta["property"])])
         for c in checks:
             t0 = time.time()
             env = dict(os.environ, XMC_EVIDENCE_DIR=f"/dev/shm/seed-evidence-{os.getpid()}", XMC_REPLAY_DIR=f"/dev/shm/seed-replays-{os.getpid()}")
@@ -53,7 +53,7 @@ for sid in seeds:
                 env["VERIF_REPO"] = scratch
             t = subprocess.run([os.path.join(VERIF, "check"), c, "--tier", a.tier], env=env, capture_output=True, text=True)
             clauses = sorted({ln.split()[0][7:] for ln in t.stdout.splitlines() if ln.startswith("  clause=")})
-            if t.returncode == 1 and c == meta["property"] and a.keep:
+            if t.returncode == 1 and c == meta.get("primary_check", meta["property"]) and a.keep:
                 # keep the first (shortest-path) counterexample as a replayable artefact next to the seed
                 reps = [ln.split("replay=")[1].strip() for ln in t.stdout.splitlines() if ln.startswith("VIOLATION") and "replay=" in ln]
                 if reps and os.path.exists(reps[0]):
